@@ -392,7 +392,11 @@ def write_evidence(prop, tier, seed, level, coverage, wall, violations=0, assump
             except Exception:
                 allt = {}
             cov = {k: v for k, v in coverage.items() if k not in ("samples", "conformance_drift", "script_conformance_drift")}
-            allt[prop] = {"seed": int(seed), "wall_s": round(wall, 1), "violations": int(violations), "coverage": cov}
+            try:
+                head = subprocess.run(["git", "-C", REPO, "log", "--format=%h", "-1"], capture_output=True, text=True).stdout.strip()
+            except Exception:
+                head = ""
+            allt[prop] = {"seed": int(seed), "wall_s": round(wall, 1), "violations": int(violations), "repo_head": head, "coverage": cov}
             with open(q + ".tmp", "w") as fh:
                 json.dump(allt, fh, indent=1, default=str)
             os.replace(q + ".tmp", q)
